@@ -43,3 +43,163 @@ def check_shared_mutable(ctx, fi, rule='R-IDIOM/shared-mutable'):
                      'to one and the same mutable object: what is stored '
                      'for one of them shows up under all')
     return n
+
+
+# ----------------------------------------------------------------------
+# R-DTYPE: results of arithmetic forced back into the element type of the
+# input
+# ----------------------------------------------------------------------
+
+_ARITH_CALLS = {'sum', 'mean', 'log2', 'log', 'log10', 'sqrt', 'exp',
+                'where', 'std', 'var', 'dot', 'cumsum', 'prod', 'average',
+                'convert_to_cpm', 'true_divide', 'divide'}
+
+
+def _is_arithmetic(fi, e, at=None):
+    """the value of e is computed (not merely selected) from its inputs"""
+    from ..core.slicing import backward_slice
+    for sub in ast.walk(e):
+        if isinstance(sub, ast.BinOp) and isinstance(
+                sub.op, (ast.Div, ast.Mult, ast.Add, ast.Sub, ast.Pow)):
+            return True
+    sl = backward_slice(fi, e, at)
+    if sl.call_names() & _ARITH_CALLS:
+        return True
+    for c in sl.calls:
+        pass
+    return False
+
+
+def _dtype_of_other(e):
+    """e is `<expr>.dtype` (or `.dtype.type`); returns <expr>"""
+    if isinstance(e, ast.Attribute) and e.attr == 'type':
+        e = e.value
+    if isinstance(e, ast.Attribute) and e.attr == 'dtype':
+        return e.value
+    return None
+
+
+def check_narrowing_cast(ctx, fi, rule='R-DTYPE/narrowing-cast'):
+    """`computed.astype(raw.dtype)`: a sum, a quotient or a logarithm cast
+    to the element type of the data it was computed from.  For data
+    stored as small integers the value wraps around or is truncated; for
+    float data nothing is gained.  (Allocating with `dtype=raw.dtype` and
+    casting a *selection* of raw are fine and not matched.)"""
+    from ..core.cfg import cfg_of
+    from ..core.defuse import rd_of
+    cfg = cfg_of(fi)
+    rd = rd_of(fi)
+    n = 0
+    for c in ast.walk(fi.node):
+        if not isinstance(c, ast.Call):
+            continue
+        recv = tgt = None
+        f = c.func
+        if isinstance(f, ast.Attribute) and f.attr == 'astype' and c.args:
+            recv, tgt = f.value, _dtype_of_other(c.args[0])
+        elif isinstance(f, ast.Attribute) and f.attr in (
+                'array', 'asarray') and c.args:
+            for kw in c.keywords:
+                if kw.arg == 'dtype':
+                    recv, tgt = c.args[0], _dtype_of_other(kw.value)
+        if recv is None or tgt is None:
+            continue
+        ns = [x for x in cfg.node_of_expr(c) if x.id in rd.live]
+        if not ns:
+            continue
+        if not _is_arithmetic(fi, recv, ns[0].id):
+            continue
+        n += 1
+        ctx.touch(fi)
+        ctx.fail(rule, f'{fi.qual}:cast#{n - 1}', fi.loc(c),
+                 f'`{unparse(c)[:70]}` casts a computed value (a sum, '
+                 'quotient, ...) to the element type of '
+                 f'`{unparse(tgt)[:30]}`: for data stored as small '
+                 'integers the value wraps around or is truncated')
+    return n
+
+
+def check_inplace_float_store(ctx, fi, rule='R-DTYPE/in-place-store'):
+    """`buffer[:, :] = computed` where the buffer came from outside (an
+    attribute or a parameter): numpy casts the computed values to the
+    buffer's element type, so a logarithm stored into integer counts is
+    truncated.  Re-binding the name keeps the computed type."""
+    from ..core.cfg import cfg_of
+    from ..core.defuse import rd_of
+    cfg = cfg_of(fi)
+    rd = rd_of(fi)
+    n = 0
+    for st in ast.walk(fi.node):
+        if not (isinstance(st, ast.Assign) and len(st.targets) == 1
+                and isinstance(st.targets[0], ast.Subscript)):
+            continue
+        tg = st.targets[0]
+        sl = tg.slice
+        parts = sl.elts if isinstance(sl, ast.Tuple) else [sl]
+        if not all(isinstance(p, ast.Slice) and p.lower is None
+                   and p.upper is None for p in parts):
+            continue            # only whole-buffer overwrites
+        base = tg.value
+        outside = False
+        if isinstance(base, ast.Attribute) and isinstance(
+                base.value, ast.Name) and base.value.id == 'self':
+            outside = True
+        elif isinstance(base, ast.Name):
+            ns = [x for x in cfg.nodes_of(st) if x.id in rd.live]
+            if ns:
+                ds = rd.reaching(base.id, ns[0].id)
+                outside = bool(ds) and all(d.kind == 'param' for d in ds)
+        if not outside:
+            continue
+        ns = [x for x in cfg.nodes_of(st) if x.id in rd.live]
+        if not ns or not _is_arithmetic(fi, st.value, ns[0].id):
+            continue
+        n += 1
+        ctx.touch(fi)
+        ctx.fail(rule, f'{fi.qual}:store#{n - 1}', fi.loc(st),
+                 f'`{unparse(st)[:70]}` writes a computed value into an '
+                 'existing buffer: numpy casts it to the buffer\'s element '
+                 'type (integer counts truncate a logarithm); re-bind the '
+                 'name instead')
+    return n
+
+
+def check_abs_of_extremum(ctx, fi, rule='R-IDIOM/abs-of-extremum'):
+    """`abs((a - b).max())`: the largest *signed* difference, made
+    positive afterwards.  A tolerance test needs the largest absolute
+    difference, `abs(a - b).max()`: with the absolute value outside, all
+    deviations of one sign are invisible (a matrix whose entries all lie
+    just below an integer has maximum difference 0)."""
+    n = 0
+    for c in ast.walk(fi.node):
+        if not isinstance(c, ast.Call):
+            continue
+        f = c.func
+        nm = f.attr if isinstance(f, ast.Attribute) else (
+            f.id if isinstance(f, ast.Name) else None)
+        if nm not in ('abs', 'absolute', 'fabs') or not c.args:
+            continue
+        inner = c.args[0]
+        if not isinstance(inner, ast.Call):
+            continue
+        g = inner.func
+        gn = g.attr if isinstance(g, ast.Attribute) else (
+            g.id if isinstance(g, ast.Name) else None)
+        if gn not in ('max', 'min', 'amax', 'amin', 'nanmax', 'nanmin'):
+            continue
+        operand = g.value if isinstance(g, ast.Attribute) and not (
+            isinstance(g.value, ast.Name) and g.value.id in (
+                'np', 'numpy')) else (inner.args[0] if inner.args
+                                      else None)
+        if operand is None or not any(
+                isinstance(x, ast.BinOp) and isinstance(x.op, ast.Sub)
+                for x in ast.walk(operand)):
+            continue
+        n += 1
+        ctx.touch(fi)
+        ctx.fail(rule, f'{fi.qual}:abs#{n - 1}', fi.loc(c),
+                 f'`{unparse(c)[:60]}` takes the absolute value of the '
+                 'largest signed difference; deviations of the other sign '
+                 'are not seen (the largest absolute difference is '
+                 '`abs(a - b).max()`)')
+    return n
